@@ -261,6 +261,32 @@ def r3(ctx):
         rep.check(ok, "skip_bytes:read-capped:%s" % k, "free capacity <= bytes still to skip", "skip_bytes can read past the oversized body: at the %s read the scratch buffer has room for %s — bytes of the next pipelined request are swallowed (and the counter arithmetic then panics)" % (k, why), sp)
     if not disc:
         rep.bad("skip_bytes:read-capped:none", "cannot find the socket reads of skip_bytes", sb.loc())
+    # the loop must leave on end of stream: some path ends (Ok or Err) under `read result == 0`; otherwise a peer that closes
+    # in the middle of the body makes the task spin on read_buf == 0 forever
+    eof_exit = False
+    for p in list(paths) + list(I.panic_paths):
+        if p.cut:
+            continue
+        for c, truth, _s, _at in p.state.pc:
+            if isinstance(c, tuple) and c and c[0] == "cmp" and c[1] in ("Eq", "Ne") and 0 in (c[2], c[3]) and ((c[1] == "Eq") == truth):
+                other = c[3] if c[2] == 0 else c[2]
+                if any(isinstance(x, tuple) and x and x[0] == "await" for x in [other] + list(atoms(other))) and P("bytes") not in atoms(other):
+                    eof_exit = True
+    rep.check(eof_exit, "skip_bytes:eof-exit", "the discard loop ends when read_buf returns 0", "the discard loop has no exit for end of stream (read_buf == 0): a peer that closes inside an oversized body leaves the task spinning", sb.loc())
+    # the explicit panic ("read too much") is reachable only under counter > requested
+    for p in I.panic_paths:
+        pe = [e for e in p.events if e.kind == "panic"]
+        if not pe or not any("panic" in (e.name or "") or e.name in ("begin_panic", "panic_fmt", "panic") for e in pe):
+            continue
+        guarded = False
+        for c, truth, _s, _at in p.state.pc:
+            if isinstance(c, tuple) and c and c[0] == "cmp" and P("bytes") in atoms(c) and any(isinstance(x, tuple) and x and x[0] == "await" for x in atoms(c)):
+                op = c[1]
+                l_is_counter = P("bytes") not in atoms(c[2])
+                gt = (op == "Gt" and l_is_counter and truth) or (op == "Lt" and not l_is_counter and truth) or (op == "Le" and l_is_counter and not truth) or (op == "Ge" and not l_is_counter and not truth)
+                if gt:
+                    guarded = True
+        rep.check(guarded, "skip_bytes:panic-guarded", "the 'read too much' panic sits under counter > requested", "the explicit panic of the discard loop is reachable without 'bytes read > requested' having been established: an ordinary partial read of an oversized body kills the connection task", loc_s(pe[-1].span))
     rep.sample({"skip_bytes Ok exits": sorted(ok_exits)})
     rep.check(ok_exits <= {"bytes==0", "counter==bytes", "eof"} and "counter==bytes" in ok_exits, "skip_bytes:ok-exits", "Ok only when nothing to skip, counter == requested, or EOF", "skip_bytes returns Ok on an exit that is neither 'requested count reached' nor EOF: %s" % sorted(ok_exits), sb.loc())
     return rep
@@ -272,10 +298,13 @@ def skip_capacity_discipline(I, paths):
     for p in paths:
         total = 0
         k = 0
+        prior = []  # (bytes read, free capacity) of the earlier reads: read_buf never returns more than the free capacity
+        last_free = None
         for e in p.events:
             if e.kind == "buf" and e.name == "read_buf":
                 k += 1
                 free = e.extra.get("free")
+                last_free = free
                 remaining = lin_add(P("bytes"), total, -1)
                 name = {1: "first", 2: "second"}.get(k, "%dth" % k)
                 if free is None or remaining is None:
@@ -284,12 +313,25 @@ def skip_capacity_discipline(I, paths):
                     d = I.decide_cmp(p.state, "Le", free, remaining, "usize")
                     ok = d is True
                     why = "%s bytes while only %s remain" % (short(free, 80), short(remaining, 80))
+                    s2 = p.state.fork()
+                    for r_, f_ in prior:
+                        ft = tform(f_) if f_ is not None else None
+                        comps = [ft[1], ft[2]] if isinstance(ft, tuple) and ft and ft[0] == "min" else ([ft] if ft is not None else [])
+                        for c_ in comps:
+                            I.assume_cmp(s2, "Le", r_, c_, True, "usize")
+                    if ok and I.decide_cmp(s2, "Ge", free, 1, "usize") is not True:
+                        # a full (or zero-capacity) BytesMut grows by itself: read_buf then takes up to 64 bytes whatever
+                        # the cap was meant to be — e.g. skip_bytes(0) without the early return reads the next request
+                        ok = False
+                        why = "a buffer that may have no free capacity (%s): BytesMut then grows by 64 bytes on its own and the read is not capped" % short(free, 60)
                 prev = out.get(name)
                 out[name] = (ok and (prev is None or prev[0]), why if not ok or prev is None else prev[1], loc_s(e.span))
             elif e.kind == "await":
                 t = tform(e.args[0])
                 if isinstance(t, tuple) and t[0] == "call" and t[1].endswith("read_buf"):
-                    total = lin_add(total, ("field", ("as", e.result, "Ok"), "0"), 1)
+                    r_ = ("field", ("as", e.result, "Ok"), "0")
+                    total = lin_add(total, r_, 1)
+                    prior.append((r_, last_free))
     return out
 
 
